@@ -225,7 +225,7 @@ def _exec_chmod(arg):
         with open(sp, "wb") as fh:
             fh.write(script)
         try:
-            p = subprocess.run(["/bin/bash", sp], cwd=d, stdin=subprocess.DEVNULL, stdout=subprocess.PIPE, stderr=subprocess.PIPE, timeout=10,
+            p = subprocess.run(["/bin/bash", sp], cwd=d, stdin=subprocess.DEVNULL, stdout=subprocess.PIPE, stderr=subprocess.PIPE, timeout=60,
                                env={"PATH": "/usr/bin:/bin", "LC_ALL": "C", "HOME": d})
             return dict(status=p.returncode, stdout=p.stdout, stderr=p.stderr, timeout=False)
         except subprocess.TimeoutExpired as e:
